@@ -4,6 +4,7 @@ import (
 	"context"
 	"fmt"
 	"math/rand"
+	"net/url"
 	"sort"
 	"sync"
 	"sync/atomic"
@@ -173,7 +174,12 @@ func RunStress(seed int64, o StressOpts) *StressResult {
 				specs := curSpecs.Load().([]gen.PipeSpec)
 				sp := specs[rr.Intn(len(specs))]
 				vars := map[string]interface{}{"k": float64(k), "c": float64(c)}
-				id, cls := sys.Schedule(c, sp.Name, vars, fmt.Sprintf("u%d", c))
+				var id, cls string
+				if api != nil && rr.Intn(3) == 0 {
+					id, cls = sys.ScheduleHTTP(c, api, sp.Name, vars)
+				} else {
+					id, cls = sys.Schedule(c, sp.Name, vars, fmt.Sprintf("u%d", c))
+				}
 				if cls == "ok" {
 					addID(id, sp.Name, sp)
 				}
@@ -184,7 +190,15 @@ func RunStress(seed int64, o StressOpts) *StressResult {
 	for i := 0; i < o.Cancelers; i++ {
 		spawn(func(c int, rr *rand.Rand) {
 			for k := 0; k < o.OpsPerClient; k++ {
-				sys.Cancel(c, randID(rr))
+				if api != nil && rr.Intn(3) == 0 {
+					id := randID(rr)
+					cs := sys.Log.Add(core.Event{Kind: core.KCall, Client: c, Op: "cancel", Job: id, Arg: "http", CallID: int64(2e9) + int64(c)*100000 + int64(k)})
+					_ = cs
+					code := api.CancelHTTP(id)
+					sys.Log.Add(core.Event{Kind: core.KRet, Client: c, Op: "cancel", Job: id, Res: map[int]string{200: "ok", 404: "not-found", 500: "already-completed"}[code], CallID: int64(2e9) + int64(c)*100000 + int64(k)})
+				} else {
+					sys.Cancel(c, randID(rr))
+				}
 				pause(rr)
 				pause(rr)
 			}
@@ -208,7 +222,13 @@ func RunStress(seed int64, o StressOpts) *StressResult {
 				case 2:
 					sys.ReadJobRec(c, randID(rr))
 				case 3:
-					if api != nil {
+					if api != nil && rr.Intn(2) == 0 {
+						id := randID(rr)
+						_, _, _ = api.JobDetail(id)
+						if j, ok := sys.ReadJob(id); ok && len(j.Tasks) > 0 {
+							_, _ = api.Do("GET", "/job/logs", url.Values{"id": {id}, "task": {j.Tasks[0].Name}}, nil)
+						}
+					} else if api != nil {
 						cc := sys.Log.Add(core.Event{Kind: core.KCall, Client: c, Op: "http-list", CallID: int64(1e9) + int64(c)*100000 + int64(k)})
 						_ = cc
 						_, _, _ = api.PipelinesJobs()
